@@ -1,6 +1,9 @@
 package vk
 
 import (
+	"github.com/relab/hotstuff/security/crypto"
+	"github.com/relab/hotstuff/security/cert"
+	"github.com/relab/hotstuff/protocol"
 	"fmt"
 	"sort"
 
@@ -234,6 +237,13 @@ var c04Logger = NewCapLogger("c04", 0)
 // reference, comparing every decision. probeAll: call VoteRule for every block
 // of the forest before each presentation (small forests), else for a few.
 func c04Run(r *vbase.Result, f *aForest, rf *realForest, order []int, kind string, probeAll bool, rng *vbase.Rng) bool {
+	return c04RunMode(r, f, rf, order, kind, probeAll, rng, false)
+}
+
+// c04RunMode with viaCommitter presents every block through the real Committer.TryCommit (store, commit rule, commit of
+// the ancestors) on a replica that can obtain EVERY block of the forest through block requests - so blocks presented out of
+// order have been fetched before their own presentation - and additionally compares the committed block.
+func c04RunMode(r *vbase.Result, f *aForest, rf *realForest, order []int, kind string, probeAll bool, rng *vbase.Rng, viaCommitter bool) bool {
 	cfg := core.NewRuntimeConfig(1, nil, core.WithAggregateQC())
 	el := eventloop.New(c04Logger, 16)
 	snd := &StubSender{ID: 1}
@@ -246,8 +256,34 @@ func c04Run(r *vbase.Result, f *aForest, rf *realForest, order []int, kind strin
 		}
 	}
 	chain := blockchain.New(el, c04Logger, snd)
+	var cm *consensus.Committer
+	var vs *protocol.ViewStates
+	if viaCommitter {
+		w := NewWorld(1, crypto.NameEDDSA, 0, core.WithAggregateQC())
+		m := w.M(1)
+		m.Sender.Fetch = func(h hotstuff.Hash) (*hotstuff.Block, bool) {
+			if i, ok := rf.byHash[h]; ok {
+				return rf.blocks[i], true
+			}
+			return nil, false
+		}
+		cfg, chain = m.Cfg, m.Chain
+	}
 	rs := newRuleset(kind, c04Logger, cfg, chain)
 	ref := newRef(f, kind)
+	expCommitted := 0
+	if viaCommitter {
+		for _, b := range f.Blocks {
+			ref.have[b.ID] = true
+		}
+		w1 := chain
+		var err error
+		vs, err = protocol.NewViewStates(w1, cert.NewAuthority(cfg, w1, nil))
+		if err != nil {
+			panic(err)
+		}
+		cm = consensus.NewCommitter(eventloop.New(c04Logger, 64), c04Logger, chain, vs, rs)
+	}
 	fail := func(rule, msg string, step int) bool {
 		r.Violate(vbase.Sig("rules-"+rule, "ruleset", kind), fmt.Sprintf("%s: forest=%+v order=%v step=%d: %s", kind, f.Blocks, order, step, msg),
 			map[string]any{"ruleset": kind, "forest": f, "order": order, "step": step})
@@ -289,6 +325,24 @@ func c04Run(r *vbase.Result, f *aForest, rf *realForest, order []int, kind strin
 					}
 				}
 			}
+		}
+		if viaCommitter {
+			_ = cm.TryCommit(rf.blocks[id])
+			want := ref.commit(ab)
+			r.Obs("commit_decisions_via_committer", 1)
+			if want > 0 && f.Blocks[want].View > f.Blocks[expCommitted].View {
+				expCommitted = want
+			}
+			if got := vs.CommittedBlock(); got.Hash() != rf.blocks[expCommitted].Hash() {
+				gi := rf.byHash[got.Hash()]
+				return fail("committed", fmt.Sprintf("after TryCommit(block %d) the committed block is %d, the published rule says %d", id, gi, expCommitted), step)
+			}
+			if lk, ok, has := peekLock(rs); has && ok {
+				if li, known := rf.byHash[lk.Hash()]; !known || li != ref.lock {
+					return fail("lock", fmt.Sprintf("after TryCommit(block %d) lock=%d, published rule says %d", id, li, ref.lock), step)
+				}
+			}
+			continue
 		}
 		chain.Store(rf.blocks[id])
 		ref.have[id] = true
@@ -523,6 +577,9 @@ func c04Random(p vbase.Params, r *vbase.Result) {
 		}
 		for _, kind := range c04Kinds {
 			c04Run(r, f, rf, order, kind, false, rng)
+			if i%4 == 0 {
+				c04RunMode(r, f, rf, order, kind, false, rng, true)
+			}
 		}
 		nt := forestNontrivial(f)
 		r.Eval(nt, fmt.Sprintf("%+v|%v", f, order))
